@@ -31,7 +31,8 @@ typedef struct vp_iface {
     uint16_t rate;
     int8_t   rssi;
     unsigned getfail;
-    uint8_t *recvbuf;       /* malloc(mtu), like the daemons */
+    uint8_t *recvbuf;
+    size_t    bufsize;        /* bytes allocated for recvbuf (= the MTU at creation; the MTU may be lowered later) */       /* malloc(mtu), like the daemons */
 } vp_iface;
 
 /* process-wide attributes (the port API has no iface argument for these) */
